@@ -124,6 +124,9 @@ CORPUS = [
 _DSAT_INNER = ["andor(pk(A),pk(B),pkh(C))", "and_b(pk(A),a:pkh(B))", "or_b(pk(A),a:pkh(B))", "or_d(pk(A),pkh(B))", "thresh(2,pk(A),a:pkh(B),s:pk(C))", "multi(2,A,B,C)", "j:and_v(v:pk(A),pkh(B))",
                "c:or_i(pk_k(A),pk_h(B))", "andor(pkh(A),pk(B),multi(1,C,F))", "or_i(and_v(v:pkh(A),pk(B)),0)", "and_b(pkh(A),a:andor(pk(B),pkh(C),pk(F)))"]
 CORPUS += [outer.format(X=x) for x in _DSAT_INNER for outer in ("or_d({X},pk(D))", "or_b({X},s:pk(D))", "andor({X},pk(E),pk(D))", "thresh(1,{X},s:pk(D))")]
+# sugar (and_n, pk, pkh, t: l: u:) directly under a wrapper: written back with the wrapper's colon in place
+CORPUS += ["or_b(pk(A),a:and_n(pk(B),older(144)))", "thresh(1,pk(A),a:and_n(pk(B),pk(C)))", "and_b(pk(A),a:and_n(pk(B),pk(C)))", "or_d(pk(A),n:and_n(pk(B),pk(C)))", "and_v(v:and_n(pk(A),pk(B)),pk(C))",
+           "or_b(pk(A),au:and_v(v:pk(B),pk(C)))", "thresh(2,pk(A),s:pk(B),a:and_n(pk(C),pk(D)))", "and_v(vn:and_n(pk(A),older(9)),pk(B))"]
 
 
 def universe(rnd: random.Random) -> tuple[dict[str, str], dict[str, int], dict[str, bytes]]:
@@ -144,6 +147,11 @@ def digest_for(fragment: str, preimage: bytes) -> str:
     from btclib.hashes import hash160, hash256, ripemd160, sha256
 
     return {"sha256": sha256, "hash256": hash256, "ripemd160": ripemd160, "hash160": hash160}[fragment](preimage).hex()
+
+
+# hash fragments whose preimage is not 32 bytes long (BIP379 takes 32-byte preimages only): with that preimage at hand the condition is still false
+SHORT_PRE = {f: p_ for f, p_ in (("sha256", b"\x07" * 20), ("hash160", b"\x09" * 33), ("ripemd160", b"\x0b" * 31), ("hash256", b"\x0d" * 64))}
+CORPUS += [f"or_d(pk(A),and_v(v:pk(B),{f}({digest_for(f, p_)})))" for f, p_ in SHORT_PRE.items()] + [f"and_v(v:pk(A),{f}({digest_for(f, p_)}))" for f, p_ in list(SHORT_PRE.items())[:2]]
 
 
 def generated(rnd: random.Random, n: int) -> list[str]:
@@ -253,7 +261,7 @@ def record(run: Run, rnd: random.Random, thorough: bool, evs: list[dict[str, Any
                                           hash160_preimages={bytes.fromhex(h): pre_for(f, h, env, pre) for f, h in ds if f == "hash160" and have_pre},
                                           locktime=lt, sequence=seq, version=ver)
             sat = outcome(lambda: m.satisfy(sigs, ctx))
-            e: dict[str, Any] = {"op": "sat", "ast": ast, "script": script.hex(), "idx": 0, "flags": STANDARD, "sigs": sorted(sub), "pre": [h for _, h in ds] if have_pre else [],
+            e: dict[str, Any] = {"op": "sat", "ast": ast, "script": script.hex(), "idx": 0, "flags": STANDARD, "sigs": sorted(sub), "pre": [h for f_, h in ds if not (f_ in SHORT_PRE and digest_for(f_, SHORT_PRE[f_]) == h)] if have_pre else [],
                                  "prevouts": [{"value": nat(prevout.value), "spk": spk.script.hex()}], "max_ops": m.max_ops if m.max_ops is not None else -1,
                                  "max_items": m.max_stack_items if m.max_stack_items is not None else -1, "max_size": m.max_witness_size if m.max_witness_size is not None else -1, "text": text,
                                  "lock": [ver, lt, seq]}
@@ -279,6 +287,8 @@ def fix_digests(text: str, env: dict[str, str], pre: dict[str, bytes]) -> str:
 
 
 def pre_for(fragment: str, h: str, env: dict[str, str], pre: dict[str, bytes]) -> bytes:
+    if fragment in SHORT_PRE and digest_for(fragment, SHORT_PRE[fragment]) == h:
+        return SHORT_PRE[fragment]                    # the real preimage, of a size BIP379 does not take
     for p in pre.values():
         if digest_for(fragment, p) == h:
             return p
@@ -418,9 +428,12 @@ def record_size_limits(run: Run, rnd: random.Random, thorough: bool, evs: list[d
     from btclib.hashes import hash160
 
     keys = []
+    prv_of: dict[str, int] = {}
     for j in range(1, 112):
-        P = mult(rnd.randrange(1, N))
+        d_ = rnd.randrange(1, N)
+        P = mult(d_)
         keys.append((bytes([2 + P[1] % 2]) + P[0].to_bytes(32, "big")).hex())
+        prv_of[keys[-1]] = d_
 
     def build(n_last: int, pads: list[int]) -> str:
         groups = [f"v:multi(1,{','.join(keys[20 * g:20 * g + 20])})" for g in range(5)]
@@ -475,6 +488,32 @@ def record_size_limits(run: Run, rnd: random.Random, thorough: bool, evs: list[d
                     "text": f"{target}-byte script"})
         evs.append({"op": "holds", "what": f"an expression whose script is {target} bytes (the P2WSH limit is 3600) is valid and sane", "ok": bool(m.is_valid) and bool(m.is_sane)})
         n += 1
+        # and it is spent: a witness script far above the 520 bytes that bound a stack element (and do not bound the script)
+        from btclib.ecc import dsa
+        from btclib.script import sig_hash
+        from btclib.script.engine import verify_input
+        from btclib.script.script_pub_key import ScriptPubKey
+        from btclib.script.witness import Witness
+        from btclib.tx import OutPoint, Tx, TxIn, TxOut
+
+        spk = ScriptPubKey.p2wsh(script)
+        prevout = TxOut(100_000, spk)
+        tx = Tx(2, 0, [TxIn(OutPoint(bytes([5]) * 32, 0), b"", 400)], [TxOut(90_000, ScriptPubKey(bytes.fromhex("0014" + "42" * 20), check_validity=False))], check_validity=False)
+        digest = sig_hash.segwit_v0(script, tx, 0, 1, prevout.value)
+        signers = [keys[20 * g] for g in range(5)] + [keys[100]]
+        sigs = {bytes.fromhex(k): dsa.sign_(digest, prv_of[k]).serialize() + b"\x01" for k in signers}
+        sat = outcome(lambda: m.satisfy(sigs, miniscript.SpendContext(locktime=0, sequence=400, version=2)))
+        e: dict[str, Any] = {"op": "sat", "ast": ast, "script": script.hex(), "idx": 0, "flags": STANDARD, "sigs": sorted(signers), "pre": [], "prevouts": [{"value": nat(prevout.value), "spk": spk.script.hex()}],
+                             "max_ops": m.max_ops if m.max_ops is not None else -1, "max_items": m.max_stack_items if m.max_stack_items is not None else -1,
+                             "max_size": m.max_witness_size if m.max_witness_size is not None else -1, "text": f"{target}-byte script", "lock": [2, 0, 400]}
+        if isinstance(sat, str):
+            e.update({"produced": False, "stack": [], "tx": tx.serialize(include_witness=True, check_validity=False).hex(), "err": sat})
+            evs.append({"op": "holds", "what": f"a satisfaction is produced for the {target}-byte script with a signature of every group: {sat}", "ok": False})
+        else:
+            tx.vin[0].script_witness = Witness([*sat, script])
+            e.update({"produced": True, "stack": [x.hex() for x in sat], "tx": tx.serialize(include_witness=True, check_validity=False).hex()})
+            evs.append({"op": "holds", "what": f"the library's engine accepts the satisfaction of the {target}-byte script", "ok": outcome(lambda: verify_input([prevout], tx, 0, STANDARD)) is None})
+        evs.append(e)
     return n
 
 
